@@ -303,6 +303,10 @@ func (p *parser) parseType() *TypeExpr {
 		return &TypeExpr{Kind: "map", Key: k, Elem: p.parseType()}
 	}
 	name := t.v
+	for p.isOp("/") && p.ts[p.pos+1].k == "id" { // import path: sync/atomic.Bool
+		p.next()
+		name += "/" + p.next().v
+	}
 	if p.isOp(".") && p.ts[p.pos+1].k == "id" {
 		p.next()
 		name += "." + p.next().v
@@ -714,6 +718,9 @@ func ParseSpec(pkg, file, text string) (sf *SpecFile, err error) {
 					p.expect("(")
 					p.accept("*")
 					recv := p.next().v
+					for p.accept("/") { // import path: sync/atomic.Bool
+						recv = recv + "/" + p.next().v
+					}
 					if p.accept(".") { // pkg.Type: ghost field on a type of another package (trusted specs)
 						recv = recv + "." + p.next().v
 					}
